@@ -134,9 +134,15 @@ def cases(draw, switches):
     depth = draw(st.integers(1, 3))
     extra = []
     data = None
+    filtered_read = False
     if slot in ("read_sub", "input_sub") and "no_convertible_in_read_input_subscripts" in switches:
-        cg.excluded.hit("no_convertible_in_read_input_subscripts")
-        slot = "assign"
+        if slot == "read_sub" and draw(st.booleans()):
+            # outside the open finding: with an empty DATA item in the program the READ of a numeric target is rewritten into RUN ecb_read_filter(..)
+            # statements, and those are visited like any other statement
+            filtered_read = True
+        else:
+            cg.excluded.hit("no_convertible_in_read_input_subscripts")
+            slot = "assign"
     if slot == "ifelse" and "no_convertible_in_ifelse_cond" in switches:
         cg.excluded.hit("no_convertible_in_ifelse_cond")
         slot = "if"
@@ -251,10 +257,34 @@ def cases(draw, switches):
     elif slot == "read_sub":
         cg.n += 1
         body = [["read", [["arr", "P", [cg.subscript(depth - 1)]]]], ["restore"]]
-        data = ["data", [["n", "77", 77]]]
+        data = ["data", [["n", "77", 77]] + ([["e"]] if filtered_read or draw(st.booleans()) else [])]
     else:
         cg.n += 1
         body = [["input", None, [["arr", "P", [cg.subscript(depth - 1)]]], False]]
+    # the statement's surroundings: alone on its line, inside a THEN or ELSE branch (taken on one of the two passes of the Q9 loop), or next to
+    # another statement of the same line that needs temporaries of its own
+    ctxs = ["line", "line", "then", "after_stmt"]
+    if slot not in ("if", "if_body", "ifelse"):
+        ctxs += ["then_else_then", "then_else_else", "before_stmt", "between_stmts"]
+    ctx = draw(st.sampled_from(ctxs))
+
+    def other():
+        cg.n += 1
+        return ["let", ["var", "C"], ["bin", "+", ["fn", "INT", [cg.num(0)]], cg.lit()], False]
+
+    first_pass = ["cmp", "=", ["var", "Q9"], ["num", "1", 1]]
+    if ctx == "then":
+        body = [["if", ["cmp", ">", ["var", "Q9"], ["num", "0", 0]], ["stmts", body], None]]
+    elif ctx == "then_else_then":
+        body = [["if", first_pass, ["stmts", body], ["stmts", [other()]]]]
+    elif ctx == "then_else_else":
+        body = [["if", first_pass, ["stmts", [other()]], ["stmts", body]]]
+    elif ctx == "after_stmt":
+        body = [other()] + body
+    elif ctx == "before_stmt":
+        body = body + [other()]
+    elif ctx == "between_stmts":
+        body = [other()] + body + [other()]
     init = [["let", ["var", v], cbgen.lit_expr(x), False] for v, x in zip(["A", "B", "C", "I", "J", "X"], draw(st.permutations([2, 3, 5.5, 1, 0, 7])))]
     init += [["let", ["svar", "S"], ["str", "AB1"], False], ["let", ["svar", "T"], ["str", "12"], False], ["let", ["svar", "U"], ["str", ""], False]]
     init += [["let", ["arr", "P", [["num", str(i), i]]], ["num", str(40 + i), 40 + i], False] for i in range(8)]
@@ -273,7 +303,7 @@ def cases(draw, switches):
         prog.append([85, [data]])
     prog += extra
     return full.add_layout(draw, {"prog": prog, "paren_unary": "paren_unary" in switches,
-                                  "_meta": {"slot": slot, "n_conv": cg.n, "nested": cg.nested, "excluded": dict(cg.excluded)}}, switches, key="source_override")
+                                  "_meta": {"slot": slot, "ctx": ctx, "n_conv": cg.n, "nested": cg.nested, "excluded": dict(cg.excluded)}}, switches, key="source_override")
 
 
 def source_identifiers(prog):
@@ -425,7 +455,7 @@ def campaign(seed, n, switches=frozenset()):
         check_case(case)
         triv = case.get("_trivial")
         nt = not triv and (meta["n_conv"] >= 2 or meta["nested"])
-        classes = ["slot_" + meta["slot"]]
+        classes = ["slot_" + meta["slot"], "context_" + meta["ctx"]]
         if meta["nested"]:
             classes.append("nested_convertible")
         if triv:
